@@ -49,13 +49,18 @@ CHECKS = {
     "C08": ("model_checking",
             "exhaustive enumeration of operator programs (every operator of Table A.1 alone and in every ordered pair) against a reference interpreter, and of all Op sequences up to length 3 (longer over shorthand-sensitive sub-alphabets) through the real serializer and parser",
             "The parser is checked against a harness-side transcription of the operator table including current-point tracking, for all 1- and 2-operator programs; the writer/reader pair is checked on every sequence of <=3 operations of a 62-symbol alphabet (every variant, shorthand triggers) and every sequence of 4..5 (thorough 6) over three sub-alphabets, plus boundary operand values.",
-            "Trusted: the reference interpreter (transcribed from ISO 32000-1 Table A.1 and 8.5.2). Known finding: d0/d1 have no Op. Inline images are not serialisable.",
+            "Trusted: the reference interpreter (transcribed from ISO 32000-1 Table A.1 and 8.5.2). Known finding: d0/d1 have no Op.",
             "§5 C08"),
     "C19": ("model_checking",
             "exhaustive enumeration of /W array shapes (groups x forms x lengths x spacings x every insertion order x DW), simple-font tables, all small code->text maps through the CMap writer, and conformant CMap texts with bounded spelling deviations, checked against map-based reference models",
             "The width table grows at both ends depending on insertion order, so every permutation of up to 4 groups is enumerated and every code near a range end is queried; the CMap writer is round-tripped for all maps of <=3 entries over boundary codes/texts; producer-written CMaps (bfchar, both bfrange forms, mixed) must read as the specification defines.",
             "Trusted: reference models (BTreeMap). More than 4 groups / 3 widths per group and larger maps are outside the bound.",
             "§5 C19"),
+    "C20": ("model_checking",
+            "exhaustive enumeration of page selections (every ordered selection of 1-3 of 3 pages, incl. the same page twice) x 3 source storages (classic, xref stream + object streams, RC4-encrypted) x 4 resource placements x 3 extra-entry shapes (acyclic, cyclic through the page, shared between pages) plus every page of every corpus file, imported with the real Importer/PdfBuilder in isolated worker processes, saved, reloaded and compared with the source",
+            "Every case runs PageBuilder::clone_page + PdfBuilder::build in a worker (stack overflow / abort / hang attributed to the case), then: independent structural reader accepts the new file and finds no reference to an undefined object; boxes, rotation and canonical operation sequences equal; for every resource name the operations use (fonts, XObjects, ext-gstates, colour spaces, patterns, shadings, property lists) a deep comparison of dictionaries and decoded stream data through both resolvers; extra page entries equal; objects shared by the imported pages exist once in the output.",
+            "Trusted: the structural reader and the deep comparison; documents are the generated rich document family and the repository corpus; /ProcSet and inherited page-tree attributes the operations do not use are outside the comparison.",
+            "§5 C20"),
     "C06": ("model_checking",
             "deviation-bounded exhaustive exploration of encryption configurations (17 handler variants x <=2/<=3 deviations of passwords, permissions, ID, flags, object ids, lengths, spellings), documents produced by an independent encryptor and read with the real library under correct and wrong passwords",
             "Each configuration is materialised as a file by an encryptor written from the specification (validated against 10 third-party fixtures), opened with user and owner password (all strings, streams, metadata, compressed strings and the encryption dictionary's own strings compared with plaintext) and with wrong passwords (must be InvalidPassword).",
